@@ -190,10 +190,11 @@ prop(
     stages=[dict(name="c16comp", pkg="c16", test="TestC16Component", access=[WORKERS_ACCESS, RUN_ACCESS], timeout_quick=300, timeout_thorough=3000),
             dict(name="c16runs", pkg="c16", test="TestC16Runs", access=[WORKERS_ACCESS, RUN_ACCESS], timeout_quick=300, timeout_thorough=3000),
             dict(name="c16conc", pkg="c16", test="TestC16Concurrent", access=[WORKERS_ACCESS, RUN_ACCESS], timeout_quick=300, timeout_thorough=3000),
-            dict(name="c16push", pkg="c16", test="TestC16Push", access=[WORKERS_ACCESS, RUN_ACCESS], timeout_quick=300, timeout_thorough=3000)],
+            dict(name="c16push", pkg="c16", test="TestC16Push", access=[WORKERS_ACCESS, RUN_ACCESS], timeout_quick=300, timeout_thorough=3000),
+            dict(name="c16file", pkg="c16", test="TestC16File", access=[WORKERS_ACCESS, RUN_ACCESS], timeout_quick=300, timeout_thorough=3000)],
     rule="random static label maps (0-7 keys from a pool with colliding prefixes and case variants; values equal to other keys, empty, non-ASCII) on private registries; "
          "1-3 consecutive runs per instance with outcome mixes incl. drops and setup failures, (a) through the real ActiveScenario with the reset Run.Do performs, (b) through whole Run.Do runs, (c) 2-12 workers recording different outcomes at the same time on an instance with static labels; "
-         "Registry.Gather() canonicalised to (family, name/value pairs sorted by name, sample count) and compared exactly with the model; after every whole run the exported iteration metric is compared with that run's final result (bodies with failing cleanups included); stage c16push: runs against an in-process push gateway answering promptly or after up to 1.5 s (runs of 5.1-5.9 s ending during a periodic push): what the gateway holds = the final result; non-trivial = at least two static labels; distinct = distinct cases",
+         "Registry.Gather() canonicalised to (family, name/value pairs sorted by name, sample count) and compared exactly with the model; after every whole run the exported iteration metric is compared with that run's final result (bodies with failing cleanups included); stage c16push: runs against an in-process push gateway answering promptly or after up to 1.5 s (runs of 5.1-5.9 s ending during a periodic push): what the gateway holds = the final result; stage c16file: config-file runs mixing users and rate stages in every order with bodies of 60-170 ms that outlive their stage (iterations in flight and requests pending when the last stage stops triggering): executed = final result = exported iteration metric, outcome by outcome; non-trivial = at least two static labels / file run of more than three iterations; distinct = distinct cases",
     assumptions=["prometheus client: WithLabelValues pairs the i-th value with the i-th declared label name; Reset drops all series; Observe adds one sample (modelled)",
                  "label maps have distinct keys (Go map)"],
 )
@@ -325,12 +326,13 @@ prop(
 prop(
     id="C09",
     stages=[dict(name="c09", pkg="c09", test="TestC09", access=[RUN_ACCESS, WORKERS_ACCESS], timeout_quick=300, timeout_thorough=3000),
+            dict(name="c09stages", pkg="c09", test="TestC09Stages", access=[RUN_ACCESS, WORKERS_ACCESS], timeout_quick=300, timeout_thorough=3000),
             # "each evaluation's value is that tick's request to the pool, unchanged": the pool side of it
             # (what the pool accepts for a tick is exactly the tick's value) is the conservation history stage
             POOL_STAGE],
     rule="real runs of a trigger built with api.NewIterationWorker around a logging rate function (monotonic time, returned value): intervals 5-300ms, with and without distribution (then the 100ms sub-tick function is the one logged), "
          "constant / growing / irregular profiles, half of the runs under scheduling noise from busy goroutines; oracle = extracted predicate c09_ok: the k-th evaluation never happens before t0 + k*interval (one-sided, load-insensitive), "
-         "and with plenty of instant workers started + dropped = sum of the evaluated values minus at most the last one; harness-side: the first evaluation happens right after setup (interval >= 100ms); non-trivial = run with >= 3 evaluations; distinct = distinct logs",
+         "and with plenty of instant workers started + dropped = sum of the evaluated values minus at most the last one; harness-side: the first evaluation happens right after setup (interval >= 100ms); stage c09stages: two or three rate triggers one after the other on one run's pool manager (what a config file's stages are), later ones with intervals longer than everything before them: c09_ok for each on its own log; real config files of constant stages k per interval whose parameter tags the iterations: a stage starts at most k (1 + floor((D - 20 ms)/interval)) iterations; non-trivial = run with >= 3 evaluations; distinct = distinct logs",
     assumptions=["time.Ticker never delivers a tick early and its channel buffers at most one tick (hypothesis ticks_not_early of C09_cadence)",
                  "monotonic clock readings of the harness; the last evaluated value may be refused by the pool because triggering had stopped"],
 )
